@@ -262,8 +262,9 @@ def signature_of(ops, res):
         m = re.search(r"ERROR: AddressSanitizer: ([\w-]+)", res["crash"])
         if m:
             kind = m.group(1)
-        # the op that died, together with what led to it
-        return "%s:%s after %s" % (ops[i].split(" ")[0], kind, ",".join(o.split(" ")[0] for o in ops[:i] if not o.startswith("fault")))
+        # the op that died, together with the call before it
+        prev = [o.split(" ")[0] for o in ops[:i] if not o.startswith("fault")]
+        return "%s:%s after %s" % (ops[i].split(" ")[0], kind, prev[-1] if prev else "-")
     r = judge_detail(ops, res["out"])
     return r[1] if r else None
 
@@ -341,6 +342,34 @@ def main(ctx):
     ctx.cov["evaluations"] += dropped
     vlib.seq_correspondence(ctx, hcmd, dcmd, kept, nontrivial=nontrivial, keep_prefix=0,
                             signature_of=signature_of, judge=judge, max_reports=24, timeout=900)
+    # shrinking may turn one failure into another (e.g. drop the fault and keep a leak): report every
+    # signature of the pre-pass that has no replay yet, shrunk with a signature-preserving predicate
+    reported = set()
+    for path, _ in ctx.violations:
+        try:
+            reported.add(vlib.json.load(open(path)).get("signature"))
+        except (OSError, ValueError):
+            pass
+    first_case = {}
+    for ops, r in zip(cases, impl):
+        if r["crash"] or judge_detail(ops, r["out"]):
+            first_case.setdefault(signature_of(ops, r), ops)
+    for sig, ops in first_case.items():
+        if sig in reported or len(ctx.violations) >= 40:
+            continue
+
+        def same(o, sig=sig):
+            return signature_of(o, vlib.run_one(hcmd, o)) == sig
+        small = vlib.ddmin(ops, same, keep_prefix=0, max_tests=60)
+        a = vlib.run_one(hcmd, small)
+        b = vlib.run_one(dcmd, small)
+        if signature_of(small, a) != sig:
+            small, a, b = ops, vlib.run_one(hcmd, ops), vlib.run_one(dcmd, ops)
+        ctx.violation({"kind": "property-fails-on-implementation", "tie": "tieB", "ops": small,
+                       "implementation": a["out"], "impl_crash": a["crash"], "model_and_spec": b["out"],
+                       "first_difference": {"impl": (a["crash"] or judge(small, a["out"]) or "")[:1500]},
+                       "how_to_replay": "bin/check C18 --replay <this file>"},
+                      found_input=True, signature=sig)
     ctx.cov["exhaustive"] = True
     ctx.cov["explanation"] = ("exhaustive=true: every single-fault position of every listed function is enumerated "
                               "(see fault_positions: positions_failed covers 1..acquisitions_max); the theorems "
